@@ -91,6 +91,17 @@ def full_binary(targets=("CMacIonize",)):
         rc, out = sh(["cmake", "--build", FULL, "-j16", "--target"] + list(targets))
         if rc != 0:
             raise RuntimeError("build of %s failed:\n%s" % (targets, out[-6000:]))
+        exe = os.path.join(FULL, "rundir", "CMacIonize")
+        if "CMacIonize" in targets and os.path.exists(exe):
+            # private copy: every `cmake --build` re-links the binary (CompilerInfo.cpp is
+            # regenerated on each build), so a concurrently running check must not execute
+            # the file that is being replaced
+            os.makedirs(BIN, exist_ok=True)
+            priv = os.path.join(BIN, "CMacIonize.%d" % os.getpid())
+            shutil.copy2(exe, priv)
+            import atexit
+            atexit.register(lambda p=priv: os.path.exists(p) and os.unlink(p))
+            return priv
     return os.path.join(FULL, "rundir", "CMacIonize")
 
 
